@@ -14,6 +14,7 @@ def main():
     mod = importlib.import_module(f'props.{a.pid}')
     if a.replay:
         sys.exit(core.run_replay(mod, a.replay))
+    os.environ['VERIF_TIER_EFFECTIVE'] = a.tier
     ctx = core.Ctx(a.pid, a.tier, seed)
     try:
         # 1. regenerate the model from /repo and compile it
@@ -24,7 +25,11 @@ def main():
             mod.pregen(ctx)
         # 2. proofs
         if getattr(mod, 'STAGES', None):
-            ctx.prove(mod.STAGES, timeout=getattr(mod, 'COQ_TIMEOUT', 900))
+            stages = list(mod.STAGES)
+            if a.tier == 'thorough' and getattr(mod, 'STAGES_THOROUGH', None):
+                # extra proof files that are too slow for the quick tier (same rules, same obligations accounting)
+                stages = stages + list(mod.STAGES_THOROUGH)
+            ctx.prove(stages, timeout=getattr(mod, 'COQ_TIMEOUT', 900))
             if a.tier == 'thorough' and not any(b['kind'] == 'proof' for b in ctx.broken):
                 last = mod.STAGES[-1][-1]
                 last = last[0] if isinstance(last, (tuple, list)) else last
